@@ -577,6 +577,13 @@ def e2e_leg(ctx, auth_name, connections, load_groups=()):
                 "client_sent_host_header": info["sent"].get("host", "x") is not None, "client_version": info["sent"].get("version", "HTTP/1.1"),
                 "key_latched_when_relayed": key, "chunked_by_client": info["sent"].get("chunked"), "connection": info["conn"]}
         auth = [v for n, v in headers if n.lower() == auth_name]
+        # Canon.hyper_wire: hyper's client writes no transfer-encoding header for an empty body, everything else as it came
+        sr = info["sent"]
+        te_sent = [v for n, v in sr["headers"] if n.lower() == b"transfer-encoding"] or ([b"chunked"] if sr.get("chunked") is not None else [])
+        te_model = te_sent if body else []
+        te_got = [v for n, v in headers if n.lower() == b"transfer-encoding"]
+        if te_got != te_model:
+            disagreements.append({"case": dict(case, what="transfer-encoding header at the host (Canon.hyper_wire)"), "model": te_model, "impl": te_got})
         if key is None or (method, target.lower()) in DOCUMENTED_EXEMPT:
             # Canon.relay / sign_and_forward without a key: the request goes out as it came
             if auth != info["client_auth"]:
@@ -610,7 +617,7 @@ def gen_e2e_connections(rng, auth_name, n_single, n_multi):
         if any(n.lower() == b"connection" and v.lower() == b"close" for n, v in hs) and not last:
             hs = [(n, v) for n, v in hs if n.lower() != b"connection"]
         body = gen_body(rng) if m in (b"POST", b"PUT") else b""
-        chunked = [rng.choice([1, 3, 7, 64])] if body and rng.random() < 0.35 else None
+        chunked = [rng.choice([1, 3, 7, 64])] if rng.random() < (0.35 if body else 0.2) else None     # also an EMPTY chunked body
         return {"method": m, "target": t, "headers": hs, "body": body, "chunked": chunked}
     conns = []
     for _ in range(n_single):
@@ -620,6 +627,16 @@ def gen_e2e_connections(rng, auth_name, n_single, n_multi):
         if n.lower() not in hop:
             conns.append({"initial_key": K1, "requests": [{"method": b"POST", "target": b"/machine?comp=x", "headers": [(n, vs[0])],
                                                            "body": b"abc", "chunked": None}]})
+    # framing: chunked requests with an EMPTY body (just the 0-chunk), with a trailer section, with `gzip, chunked`, together
+    # with Content-Length: 0; Content-Length: 0 alone; no framing header at all -- on the signed path, every method
+    for m in (b"GET", b"POST", b"PUT", b"DELETE"):
+        for hs, ch in (([], [1]), ([(b"Trailer", b"x-t")], [1]), ([(b"Transfer-Encoding", b"gzip, chunked")], [1]),
+                       ([(b"Content-Length", b"0")], [1]), ([(b"Content-Length", b"0")], None), ([], None)):
+            conns.append({"initial_key": K1, "requests": [{"method": m, "target": b"/machine?comp=x", "headers": [(b"x-a", b"1")] + hs,
+                                                           "body": b"", "chunked": ch}]})
+        conns.append({"initial_key": K1, "requests": [{"method": m, "target": b"/machine?comp=x", "headers": [], "body": b"", "chunked": [1]},
+                                                      {"method": m, "target": b"/machine?comp=y", "headers": [], "body": b"ab", "chunked": [1]},
+                                                      {"method": m, "target": b"/machine?comp=z", "headers": [], "body": b"", "chunked": [2]}]})
     # upstream fault histories: the host closes the upstream connection after each reply (idle keep-alive timeout) or
     # without replying; the client keeps its connection and sends further non-exempt requests, with and without a pause
     for mode in ("reply", "no_reply"):
